@@ -330,3 +330,47 @@ Lemma stream_skips_one_refuted_proof :
   stream_sees ReaderNoSkip true (root_member [dot] :: members_of ex_stream_members) =
     Some (NDir stream_root_meta [] [([dot], NDir ex_meta [] ex_stream_members)], []).
 Proof. cbv zeta. repeat split; vm_compute; reflexivity. Qed.
+
+(* ---------- a source that fails: Tar() == nil only if nothing failed ---------- *)
+Lemma regroupF_consumes : forall fuel,
+  (forall src t rest, regroupF FaultReported fuel src = ROk (t, rest) ->
+     exists evs, src = map NextOk evs ++ rest) /\
+  (forall dirp src acc cs rest, groupF FaultReported fuel dirp src acc = ROk (cs, rest) ->
+     exists evs, src = map NextOk evs ++ rest).
+Proof.
+  induction fuel as [|f [IHr IHg]]; [split; intros; discriminate|]. split.
+  - intros src t rest H. destruct src as [|[[[p nm] h]|] r]; cbn [regroupF] in H; try discriminate. destruct h as [m xs ch| | | |];
+      try (inversion H; subst; eexists [_]; reflexivity).
+    destruct (groupF FaultReported f p r []) as [[cs rest']| |] eqn:E; try discriminate.
+    inversion H; subst. destruct (IHg _ _ _ _ _ E) as (evs & ->).
+    exists ((p, nm, NDir m xs ch) :: evs). reflexivity.
+  - intros dirp src acc cs rest H. destruct src as [|[[[p nm] h]|] r].
+    + cbn [groupF] in H. inversion H; subst. exists []. reflexivity.
+    + cbn [groupF] in H. destruct (beq (dir p) dirp).
+      * destruct (regroupF FaultReported f (NextOk (p, nm, h) :: r)) as [[c rest1]| |] eqn:E; try discriminate.
+        destruct (IHr _ _ _ E) as (evs1 & E1). destruct (IHg _ _ _ _ _ H) as (evs2 & E2).
+        exists (evs1 ++ evs2). rewrite E1, E2, map_app, <- app_assoc. reflexivity.
+      * inversion H; subst. exists []. reflexivity.
+    + cbn [groupF] in H. discriminate.
+Qed.
+
+Theorem tar_faulty_reports_proof : forall src t,
+  tar_faulty FaultReported src = TarOk t -> ~ In NextErr src.
+Proof.
+  intros src t H. unfold tar_faulty in H.
+  destruct (regroupF FaultReported (2 * length src + 2) src) as [[t' rest]| |] eqn:E; try discriminate.
+  destruct (proj1 (regroupF_consumes _) _ _ _ E) as (evs & Es).
+  destruct rest as [|[e|] rest]; try discriminate.
+  rewrite app_nil_r in Es. rewrite Es. intros Hin. apply in_map_iff in Hin. destruct Hin as (x & Hx & _). discriminate.
+Qed.
+
+Definition ex_fault_src : list next_result :=
+  (NextOk ([116], [116], NDir ex_meta [] []) :: NextOk ([116; 47; 97], [97], NFile ex_meta [] [1]) ::
+   NextErr :: NextOk ([116; 47; 122], [122], NFile ex_meta [] []) :: [])%N.
+
+Lemma tar_faulty_refuted_proof :
+  tar_faulty FaultAsEOF ex_fault_src = TarOk (NDir ex_meta [] [([97], NFile ex_meta [] [1])])%N /\
+  tar_faulty FaultReported ex_fault_src = TarError /\
+  tar_faulty FaultReported (filter (fun r => match r with NextOk _ => true | NextErr => false end) ex_fault_src)
+    = TarOk (NDir ex_meta [] [([97], NFile ex_meta [] [1]); ([122], NFile ex_meta [] [])])%N.
+Proof. repeat split; vm_compute; reflexivity. Qed.
